@@ -252,13 +252,17 @@ where
 {
     #[inline(always)]
     fn go<M: Mode>(&self, inp: &mut InputRef<'src, '_, I, E>) -> PResult<M, O> {
-        let before = inp.cursor();
+        let before = inp.save();
         self.parser.go::<Emit>(inp).and_then(|out| {
             if (self.filter)(&out) {
                 Ok(M::bind(|| out))
             } else {
-                let err_span = inp.span_since(&before);
-                inp.add_alt([DefaultExpected::SomethingElse], None, err_span);
+                // The rejected match is a failure *of this parser*: report it where the match started (like every
+                // other parser does), with the token that was found there
+                let err_span = inp.span_since(before.cursor());
+                inp.rewind(before);
+                let found = inp.peek_maybe();
+                inp.add_alt([DefaultExpected::SomethingElse], found, err_span);
                 Err(())
             }
         })
